@@ -144,9 +144,11 @@ def key_bytes(nb, ident):
     if nb == 2:
         return chr(0xE0 + ident % 16).encode("utf8")       # 2-byte character
     if nb == 3:
-        return [b"\x1b[A", b"\x1b[B", b"\x1bOP", "日".encode("utf8")][ident % 4]
+        # (the last three: UTF-8 forms whose middle byte is 0xBF / 0x80, the edges of the continuation range)
+        return [b"\x1b[A", b"\x1b[B", b"\x1bOP", "日".encode("utf8"), "\u8fd9".encode("utf8"), "\ufffd".encode("utf8"),
+                "\u4000".encode("utf8")][ident % 7]
     if nb == 4:
-        return [b"\x1b[3~", "😀".encode("utf8")][ident % 2]
+        return [b"\x1b[3~", "😀".encode("utf8"), "\U0003ffff".encode("utf8")][ident % 3]       # F0 BF BF BF too
     return b"\x1b[1;5" + bytes([65 + 32 + ident % 4]) if nb == 6 else bytes([97 + ident % 26]) * nb
 
 
